@@ -124,6 +124,8 @@ Definition marshal_data_value_b (data : bytes) : outcome bytes :=
     else Ok data
   end.
 Definition marshal_data_value (j : json) : outcome bytes := marshal_data_value_b (print j).
+(* MarshalDataValue as a function of what json.Marshal(v) returned (Err: v cannot be marshalled) *)
+Definition marshal_data_value_enc (enc : outcome bytes) : outcome bytes := obind enc marshal_data_value_b.
 
 (* last member named "data": (raw, ast) *)
 Definition data_step (st : option (bytes * json)) (m : bytes * bytes * json) : option (bytes * json) :=
